@@ -5,7 +5,8 @@ import KrakenModel.Model.Poll
    implementation returned.
 
    cfg  entry=cluster|poll dst=plain|seek pre=<bytes> pos=<n> blob=<bytes> bo=<n> resolve=ok|err
-   origin <resp,…>                      script of the next origin (`-` = empty); net | s<code> | c<k> | full
+   origin <resp,…>                      script of the next origin (`-` = empty); net | s<code> | c<k> | full | k<k> | fullc
+                                        (c/full: Content-Length announced; k/fullc: streamed without Content-Length)
    op download => <result> dst=<bytes> pos=<n> reqs=<n,…>
 -/
 open Driver KrakenModel.Poll
@@ -21,10 +22,12 @@ structure St where
 
 def resp? (t : String) : Option Resp :=
   if t = "net" then some .netErr
-  else if t = "full" then some .full
+  else if t = "full" then some (.full false)
+  else if t = "fullc" then some (.full true)
   else match t.toList with
     | 's' :: ds => (String.ofList ds).toNat?.bind fun c => if c = 200 then none else some (.status c)
-    | 'c' :: ds => (String.ofList ds).toNat?.map .cut
+    | 'c' :: ds => (String.ofList ds).toNat?.map (.cut · false)
+    | 'k' :: ds => (String.ofList ds).toNat?.map (.cut · true)
     | _ => none
 
 def script? (t : String) : Option (List Resp) := (list? t).mapM resp?
